@@ -87,7 +87,8 @@ def build_pool(seed, scratch, tier):
                                                    "--must-use-type", "S.*", "--", "-x", "c++", "-std=c++14"])
     # system headers: the include-path detection result of one generation must not leak into the next
     add("sys-c", "sys_c.h", [])
-    add("sys-cpp", "sys_cpp.hpp", ["--", "-std=c++14"])
+    add("sys-cpp", "sys_cpp.hpp", [])  # C++ by file extension only: same clang flags as sys-c
+    add("sys-cpp-std", "sys_cpp.hpp", ["--", "-std=c++14"])
     add("sys-cpp-no-detect", "sys_cpp.hpp", ["--no-include-path-detection", "--", "-x", "c++", "-std=c++14"])
     add("macros", "macros.h", [])
     add("macros-fallback-own-dir", "macros.h", ["--clang-macro-fallback", "--clang-macro-fallback-build-dir", "@OUT@"], outdir="@INST@")
@@ -423,8 +424,9 @@ def run(tier, seed):
             k = 1 + rng.below(12 if quick else 50)
             jobs = []
             anchor = rng.pick(fast)
-            same_path = [j for j in fast if j.get("history_only")]
-            focus = same_path if (same_path and rng.chance(200)) else None
+            focus_groups = [g for g in ([j for j in fast if j.get("history_only")],
+                                        [j for j in fast if j["id"].startswith("sys-")]) if g]
+            focus = rng.pick(focus_groups) if (focus_groups and rng.chance(300)) else None
             for _ in range(k):
                 if focus and rng.chance(600):
                     jobs.append(mk(rng.pick(focus), rng))
